@@ -275,6 +275,41 @@ fn check_buffer_reuse(tier: Tier, acc: &mut Acc) {
     }
 }
 
+pub fn failed_send_violations(prefix: &str) -> Violations {
+    let mut acc = Acc::default();
+    check_failed_sends(&mut acc, prefix);
+    acc.viol
+}
+
+fn check_failed_sends(acc_fail: &mut Acc, prefix: &str) {
+    {
+        use crate::io::{wire_after_failed_send, WireItem};
+        let one = || WireItem::Command(Command::new("delete").argument("3"));
+        let list = || WireItem::List(CommandList::new(Command::new("password").argument("hunter2")).command(Command::new("status")));
+        for fail_after in [0usize, 1, 5, 9, 20] {
+            for (fname, first) in [("a command", one as fn() -> WireItem), ("a list", list as fn() -> WireItem)] {
+                for (sname, second, want) in [
+                    ("a command", WireItem::Command(Command::new("ping")), b"ping\n".to_vec()),
+                    ("a list", WireItem::List(CommandList::new(Command::new("a")).command(Command::new("b"))), b"command_list_ok_begin\na\nb\ncommand_list_end\n".to_vec()),
+                ] {
+                    acc_fail.evaluations += 1;
+                    acc_fail.nontrivial += 1;
+                    acc_fail.transitions += 2;
+                    match catch(|| wire_after_failed_send(first(), fail_after, second)) {
+                        Ok(Ok(w)) if w == want => {}
+                        Ok(Err(e)) if e.contains("succeeded") && fail_after >= 9 => {} // the whole first request fitted before the break
+                        other => acc_fail.viol.push(Violation::new(
+                            format!("{prefix}/bytes-left-behind-by-a-failed-send"),
+                            format!("after {fname} failed to be sent (transport broke after {fail_after} bytes), {sname} sent on a new connection reaches its transport as {:?}, expected {:?}", other.map(|r| r.map(|w| show_bytes(&w))), show_bytes(&want)),
+                            json!({"kind": "failed-send", "fail_after": fail_after}),
+                        )),
+                    }
+                }
+            }
+        }
+    }
+}
+
 fn single_line(w: &[u8]) -> bool {
     w.last() == Some(&b'\n') && w.iter().filter(|&&b| b == b'\n').count() == 1
 }
@@ -588,7 +623,25 @@ pub fn run(tier: Tier) -> i32 {
         })
         .reduce(Acc::default, Acc::merge);
 
-    let mut acc = acc_names.merge(acc_args).merge(acc_seq);
+    // (round 7) a send that failed must leave nothing behind that a later send - on any connection of the thread -
+    // would put on the wire: one command is one line, a list of N is N + 2 lines, and nothing in front of them
+    let mut acc_fail = Acc::default();
+    check_failed_sends(&mut acc_fail, "C07");
+    // ... and a transport that takes a few bytes per write still gets whole lines (the asynchronous connection is the
+    // path every Client request takes)
+    for (k, arg) in ["x", "a b", "0123456789012345678901234567890123456789"].into_iter().enumerate() {
+        use crate::io::{wire_async_limited, WireItem};
+        let cmd = Command::new("add").argument(arg);
+        let list = CommandList::new(cmd.clone()).command(Command::new("ping"));
+        for limit in [1usize, 7, 16] {
+            acc_fail.evaluations += 2;
+            acc_fail.transitions += 2;
+            if wire_async_limited(WireItem::Command(cmd.clone()), limit).ok() != Some(wire_of_command(cmd.clone())) || wire_async_limited(WireItem::List(list.clone()), limit).ok() != Some(wire_of_list(list.clone())) {
+                acc_fail.viol.push(Violation::new("C07/line-cut-short-by-a-short-write", format!("over a transport that takes {limit} bytes per write, `add <argument {k}>` / the list [add, ping] does not arrive as the whole line(s)"), json!({"kind": "failed-send", "fail_after": limit})));
+            }
+        }
+    }
+    let mut acc = acc_names.merge(acc_args).merge(acc_seq).merge(acc_fail);
     check_buffer_reuse(tier, &mut acc);
     for p in PANICS.lock().unwrap().drain(..).take(50) {
         acc.viol.push(Violation::new("C07/panic", format!("the command builder panicked on an argument: {p}"), json!({"kind": "panic", "what": p})));
@@ -644,6 +697,10 @@ pub fn replay(case: &Value) -> i32 {
             let seq: Vec<usize> = case["seq"].as_array().map(|a| a.iter().filter_map(|x| x.as_u64().map(|v| (v as usize).min(seq_menu().len() - 1))).collect()).unwrap_or_default();
             println!("replay C07: add_argument sequence {seq:?}");
             check_sequence(&seq, &mut acc, true);
+        }
+        Some("failed-send") => {
+            println!("replay C07: a failed send followed by sends on a new connection (5 break points x 2 x 2 cases)");
+            check_failed_sends(&mut acc, "C07");
         }
         Some(k @ ("name-reuse" | "arg-reuse")) => {
             let a = String::from_utf8_lossy(&unhex(case["first_hex"].as_str().unwrap_or(""))).into_owned();
